@@ -58,6 +58,30 @@ func witnessScenarios() map[string]*scenario {
 				b.put(apkDB, apkInstalled(nil))
 				b.commit()
 			}),
+		"gobin-shared-package": mkScenario(
+			[]string{"layer 0: two Go executables built with go1.22.1, both depending on golang.org/x/text v0.14.0: usr/bin/app and usr/bin/tool"},
+			func(b *builder) {
+				b.put("usr/bin/app", goElf(goBuild("app", "1.0.0", true)))
+				b.put("usr/bin/tool", goElf(goBuild("tool", "1.0.0", true)))
+				b.commit()
+			}),
+		"gobin-overwrite-in-place": mkScenario(
+			[]string{"layer 0: usr/bin/app = example.com/app v1.0.0", "layer 1: usr/bin/app rebuilt from example.com/app v1.0.1 (file overwritten)"},
+			func(b *builder) {
+				b.put("usr/bin/app", goElf(goBuild("app", "1.0.0", false)))
+				b.commit()
+				b.put("usr/bin/app", goElf(goBuild("app", "1.0.1", false)))
+				b.commit()
+			}),
+		"lang-shared-id-across-ecosystems": mkScenario(
+			[]string{"layer 0: pip install ms 2.0.0; npm install ms 2.0.0", "layer 1: pip uninstall ms"},
+			func(b *builder) {
+				b.put(py+"/ms-2.0.0.dist-info/METADATA", pyMetadata("ms", "2.0.0"))
+				b.put("usr/local/lib/node_modules/ms/package.json", packageJSON("ms", "2.0.0"))
+				b.commit()
+				b.rm(py + "/ms-2.0.0.dist-info")
+				b.commit()
+			}),
 		"python-distro-dir-context": mkScenario(
 			[]string{"layer 0: debian with bash 5.2-1 (var/lib/dpkg/status)", "layer 1: requests 2.31.0 installed into usr/lib/python3/dist-packages, dpkg database untouched"},
 			func(b *builder) {
